@@ -1496,7 +1496,7 @@ def run (cfg):
     if cfg.only and cfg.only not in (kname or 'limits') and cfg.only not in sname: continue
     n = sum(1 for _ in gen())
     sizes["%s:%s" % (sname, kname or '*')] = n
-    nsl = max(1, min(4 * cfg.workers, n // 400))
+    nsl = max(1, min(cfg.workers, n // 400))
     if kname is None: nsl = min(n, 2 * cfg.workers)
     for sl in range(nsl): items.append((si, sl, nsl, thorough, cfg.only))
   best = {}
